@@ -41,7 +41,13 @@ type Event struct {
 	Read    StateSet  // for guard: the values the tested read may have had, after refinement
 	Stale   bool      // for guard: an own state write happened between the read and the test
 	ReadVal ssa.Value // for guard: the read that was tested
+	// Sub maps the parameters of the spliced callee the event occurred in to the caller's values (for rendering operands that
+	// the callee builds from its parameters)
+	Sub map[ssa.Value]ssa.Value
 }
+
+// R renders an operand of the event in the root function's terms.
+func (e Event) R(v ssa.Value) string { return RenderSubst(v, e.Sub) }
 
 func (e Event) String() string {
 	s := e.Kind
@@ -483,6 +489,9 @@ func (t *Tracer) Traces(fn *ssa.Function, entry StateSet) []*Trace {
 func (t *Tracer) emit(p *pstate, fr *frame, e Event) {
 	e.Fn = fr.fn
 	e.Depth = fr.depth
+	if len(fr.sub) > 0 {
+		e.Sub = fr.sub
+	}
 	if e.Instr != nil && e.Pos == token.NoPos {
 		e.Pos = e.Instr.Pos()
 	}
@@ -1144,16 +1153,8 @@ type Registration struct {
 func (m *SessionModel) Registrations() []Registration {
 	var out []Registration
 	var fns []*ssa.Function
-	for _, mem := range m.Pkg.Members {
-		if fn, ok := mem.(*ssa.Function); ok {
-			fns = append(fns, WithAnon(fn)...)
-		}
-	}
-	ms := m.Pkg.Prog.MethodSets.MethodSet(types.NewPointer(m.Session))
-	for i := 0; i < ms.Len(); i++ {
-		if fn := m.Pkg.Prog.MethodValue(ms.At(i)); fn != nil && fn.Pkg == m.Pkg {
-			fns = append(fns, WithAnon(fn)...)
-		}
+	for _, fn := range pkgTopFuncs(m.Pkg) { // functions and the methods of every type of the package
+		fns = append(fns, WithAnon(fn)...)
 	}
 	for _, fn := range fns {
 		AllInstrs(fn, func(in ssa.Instruction) {
